@@ -233,6 +233,12 @@ class ndarray:
     def copy(self, order='C'):
         return ndarray._new(self._flat(), self.shape, self.dtype)
 
+    def __copy__(self):
+        return self.copy()
+
+    def __deepcopy__(self, memo):
+        return self.copy()
+
     def astype(self, dt, copy=True):
         dt = _as_dtype(dt)
         return ndarray._new([_coerce(v, dt) for v in self._flat()], self.shape, dt)
